@@ -299,6 +299,7 @@ class DepartureRun(PubSubRun):
         for an in model.anomalies:
             res.add("C07", "model_anomaly", an)
         by_conn = {a.conn: a for a in self.actors if a.sock is not None}
+        self.oracle_wrongly_closed(model, by_conn)
         # (d) delivery among the remaining clients is unaffected
         self.oracle_c01(model, by_conn, prop="C07", clause_prefix="survivors.")
         # (a) no write to a connection after the manager closed it
